@@ -122,3 +122,82 @@ class GetTrait(CContract):
         if ov.startswith("instance>=2"):
             out.append(("creates", lambda r, s: z3.And(r != NULL, z3.BoolVal(s.ghost.get("fresh_object") is not None))))
         return out
+
+
+@register
+class GetPrefixTrait(CContract):
+    """get_prefix_trait(obj, name, is_set): the trait for a name no class or instance trait declares, made by the Python
+    method __prefix_trait__, recorded in the class-trait dictionary and announced through trait_added.
+
+    The callers (has_traits_getattro / has_traits_setattro / get_trait / the delegate walkers) use the result as a
+    BORROWED trait pointer: C18 requires that a non-NULL result is a trait object backed by the class-trait dictionary
+    entry for the name -- never None, never an object whose only reference was just dropped."""
+    qualname = "get_prefix_trait"
+    properties = ("C13",)
+    extra_properties = ("C18",)
+    side_props = {"valid-deref": ("C18",), "bounds": ("C18",)}
+    own = True
+    assumptions = ("A-API", "A-HAVOC", "A-ALLOC", "get_trait and has_traits_setattro through their contracts",
+                   "A-CB: trait_added handlers do not remove the trait being added")
+
+    def configure(self, cx, ex, ov):
+        cx.globals["trait_added"] = z3.Const("g_trait_added", Obj)
+
+        def get_trait(ex2, args, st, k):
+            """get_trait(obj, name, 0) by its contract: an existing instance trait, else the class trait, else None"""
+            obj, name, _inst = args
+            st = st.log(("get_trait",) + tuple(args))
+            d = A.dict_arr(st)
+            cls = d[ex2.field_array(st, "ctrait_dict")[obj]][name]
+            itd = ex2.field_array(st, "itrait_dict")[obj]
+            inst = z3.If(itd == NULL, NULL, d[itd][name])
+            r = z3.If(inst != NULL, inst, z3.If(cls != NULL, cls, A.NONE))
+            return k(r, ex2.api.own_inc(st, r).gset("looked_up", (inst, cls)))
+        cx.summaries["get_trait"] = get_trait
+
+        def setattro(ex2, args, st, k):
+            st = st.log(("has_traits_setattro",) + tuple(args))
+            s1 = ex2.api.havoc(st, "has_traits_setattro")
+            e = cx.fresh("exc", INT)
+            return k(z3.IntVal(0), s1) + k(z3.IntVal(-1), s1.assume(e >= 1).with_exc(e))
+        cx.summaries["has_traits_setattro"] = setattro
+        obj, name = z3.Consts("obj name", Obj)
+
+        def keep(api, before, after):
+            # A-CB: the handlers leave the entry just made in the class-trait dictionary (and the dictionary) in place
+            f = api.ex.field_array
+            cd0, cd1 = f(before, "ctrait_dict")[obj], f(after, "ctrait_dict")[obj]
+            if not before.ghost.get("entry_made"):
+                return after.assume(cd1 == cd0)
+            return after.assume(cd1 == cd0, A.dict_arr(after)[cd1][name] == A.dict_arr(before)[cd0][name])
+        cx.havoc_keeps = keep
+
+        def set_item(ex2, args, st, k):
+            return A._dict_setitem(ex2.api, args, st, lambda r, s: k(r, s.gset("entry_made", True) if z3.is_int_value(z3.simplify(r)) and z3.simplify(r).as_long() == 0 else s))
+        cx.summaries["PyDict_SetItem"] = set_item
+
+    def c_setup(self, cx, ex, ov):
+        obj, name = z3.Consts("obj name", Obj)
+        is_set = z3.Int("is_set")
+        st = CSt().assume(obj != NULL, name != NULL, ex.field_array(CSt(), "ctrait_dict")[obj] != NULL)
+        st = st.with_mem("@dict", A.dict_arr(st))
+        return st, [obj, name, is_set], dict(obj=obj, name=name, witness={"name_is_exact_str": A.is_exact(name, "PyUnicode_Type")},
+                                            concretise=lambda m: dict(harness="hastraits", family="prefix_trait_unhashable"))
+
+    def c_post(self, cx, ex, ov, info, ret, st):
+        obj, name = info["obj"], info["name"]
+        made = [r for r in st.trace if r[0] == "callmethod" and r[2] == "__prefix_trait__"]
+        cd = ex.field_array(st, "ctrait_dict")[obj]
+        out = [("post:NULL-iff-error-indicator-set", (ret == NULL) == (st.exc != 0)),
+               ("post:__prefix_trait__-is-asked-exactly-once", z3.BoolVal(len(made) == 1)),
+               ("post:a-result-is-never-None", z3.Implies(ret != NULL, ret != A.NONE)),
+               ("post:the-borrowed-result-is-backed-by-a-trait-dictionary-of-the-object", z3.Implies(ret != NULL, z3.Or(
+                   A.dict_arr(st)[cd][name] == ret,
+                   z3.And(ex.field_array(st, "itrait_dict")[obj] != NULL, A.dict_arr(st)[ex.field_array(st, "itrait_dict")[obj]][name] == ret))))]
+        if st.own is not None:
+            o = z3.Const("o!own", Obj)
+            out.append(("own:reference-neutral-the-result-is-borrowed", z3.ForAll([o], st.own[o] == info["own0"][o]), {}, ("C18",)))
+        return out
+
+    def covers(self, cx, ov, info):
+        return [("resolves", lambda r, s: r != NULL), ("fails", lambda r, s: r == NULL)]
